@@ -300,3 +300,49 @@ func c17KeyTag(c *Ctx, r *Report) {
 		r.ok("C17.R8.keytag-formula", "DNSKEY.KeyTag", c.pos(fn.Pos()), "(ac + (ac>>16 & 0xFFFF)) & 0xFFFF")
 	}
 }
+
+// c17HashCase: the three strings NSEC3.Cover / Match order are compared as text, so they must be in one case:
+// each operand of an ordering or equality between hashes derives from strings.ToUpper or from HashName (which
+// returns upper-case base32hex). A hash taken from the record as stored (NextDomain as parsed from zone text) is not.
+func c17HashCase(c *Ctx, r *Report) {
+	r.rule("C17.R1.hash-case", 2, "every hash NSEC3.Cover / Match compares is case-normalised (ToUpper) or comes from HashName")
+	for _, name := range []string{"NSEC3.Cover", "NSEC3.Match"} {
+		fn := c.ssaFunc(name)
+		if fn == nil {
+			r.cerr("C17.R1.hash-case", name, "function not found")
+			continue
+		}
+		var problems []string
+		n := 0
+		normalised := func(v ssa.Value) bool {
+			return anyIn(sliceOf(v), callsFunc("strings.ToUpper", "HashName"))
+		}
+		allInstrs(fn, func(in ssa.Instruction) {
+			b, ok := in.(*ssa.BinOp)
+			if !ok {
+				return
+			}
+			switch b.Op {
+			case token.EQL, token.NEQ, token.LSS, token.LEQ, token.GTR, token.GEQ:
+			default:
+				return
+			}
+			if bt, ok := b.X.Type().Underlying().(*types.Basic); !ok || bt.Info()&types.IsString == 0 {
+				return
+			}
+			n++
+			for _, op := range []ssa.Value{b.X, b.Y} {
+				if _, isConst := op.(*ssa.Const); isConst {
+					continue
+				}
+				if !normalised(op) {
+					problems = append(problems, fmt.Sprintf("%s: a hash is compared as stored (%s), the others upper-cased: a record parsed from lower-case zone text orders its next hashed owner name after every upper-case hash, and names outside the interval are reported covered", c.pos(b.Pos()), describeValue(op)))
+				}
+			}
+		})
+		if n == 0 {
+			problems = append(problems, "no string comparison found")
+		}
+		r.check(len(uniqStrings(problems)) == 0, "C17.R1.hash-case", name, c.pos(fn.Pos()), "one case", "%s", strings.Join(uniqStrings(problems), "; "))
+	}
+}
